@@ -9,13 +9,18 @@ ID = "C18"
 PROP_FILE = "props/C18.v"
 COQ_TARGETS = ["props/C18.vo"]
 TRUSTED = ["translators/cachekeys.py (classification of every parameter read of the assemblers by source object and binding "
-           "time, cache key tuples; call-chain edges checked literally; fails closed)",
+           "time, cache key tuples; call-chain edges checked literally; fails closed; purity scan of the operator/discrete "
+           "operator/grid-function/potential algebra modules: every augmented assignment, subscript store, out= argument, "
+           ".fill/.sort on a value that may alias self or an argument is listed in inplace_updates)",
            "the list of functions that make up each assembler (configuration of the translator)",
            "harness/c18_impl.py and the exafmm stand-in harness/stubs/exafmm with fmm.dense_evaluation=True",
            "fresh-interpreter oracle: a new interpreter with the parameter values set globally"]
 ASSUMPTIONS = ["numerical content of the assemblers is abstracted to the list of parameter values read (descriptor)",
                "single precision (C18_precision) is not modelled: Numba computes in double and the dtype is chosen by the "
                "descriptor; accuracy of single precision is analytic",
+               "purity (no in-place update of an array reachable from self/arguments) is decided syntactically and "
+               "conservatively: names bound to freshly allocated arrays (np.zeros/empty/copy/astype/...) are exempt, everything "
+               "else counts as possibly aliased; aliasing through C extensions is not seen (the search re-observes operands)",
                "FMM tree parameters (depth, ncrit, expansion order) are invisible with the exact stand-in evaluator: their "
                "cache-key omissions are proved on the model and not observable in the search"]
 
@@ -86,6 +91,15 @@ def grid_histories():
     # blocked operator: blocks bind when the blocked weak form is first requested
     hs.append([["reset"], ["space", "P1"], ["op", "KDense", 0, {"QReg": 6}], ["op", "KSparse", 0, None],
                ["blocked", [0, 1]], ["set", 0, "QReg", 1], ["weak", 2], ["set", 0, "QReg", 3], ["weak", 2], ["weak", 1]])
+    # derived operators assembled between two observations of the original one, in both precisions: the operand's weak form
+    # (and strong form) must stay what a fresh process computes -- no in-place update of the cached array
+    for kind in ("KDense", "KSparse"):
+        for prec in ((None, "single") if kind == "KDense" else (None,)):
+            op0 = ["op", kind, 0, None] + ([prec] if prec else [])
+            hs.append([["reset"], ["space", "P1"], op0, ["weak", 0], ["derived", "neg", 0], ["weak", 0], ["derived", "scal", 0],
+                       ["weak", 0], ["derived", "rscal", 0], ["weak", 0], ["derived", "prod", 0], ["weak", 0], ["strong", 0]])
+            hs.append([["reset"], ["space", "P1"], op0, list(op0), ["derived", "sub", 0, 1], ["weak", 0], ["weak", 1],
+                       ["derived", "sum", 1, 0], ["weak", 1], ["weak", 0]])
     # single precision: same parameters, result within single-precision accuracy of the double one
     hs.append([["reset"], ["space", "P1"], ["op", "KDense", 0, {"QReg": 3}, "single"], ["set", 0, "QReg", 5], ["weak", 0],
                ["op", "KSparse", 0, None, "single"], ["weak", 1], ["op", "KPotential", 0, None, "single"], ["eval", 2]])
@@ -162,6 +176,9 @@ def annotate(h):
                         "bound": dict(pobjs[pid]) if kind in POTENTIAL else None, "explicit": pid != 0})
         elif tag == "set":
             pobjs[st[1]][st[2]] = st[3]
+        elif tag == "derived":
+            for i in st[2:]:
+                bind(ops[i])
         elif tag in ("weak", "strong", "eval", "iface"):
             o = ops[st[1]]
             if o["kind"] == "Blocked":
@@ -226,6 +243,9 @@ def coq_history(h):
         elif tag == "strong":
             out.append("StrongForm %d %d" % (_model_index(h, si, st[1]),
                                              [x for x in h[:si] if x[0] in ("op", "blocked")][st[1]][2]))
+        elif tag == "derived":
+            for i in st[2:]:
+                out.append("AssembleDerived %d 3" % _model_index(h, si, i))
         elif tag == "clear":
             out.append("ClearFmmCache")
         elif tag == "mass":
@@ -256,6 +276,11 @@ def _signature(h, si, spec):
         return ("C18:fmm-cache:backend-built-with-other-expansion_order-or-ncrit-than-the-parameter-object",
                 "the FMM backend used by an operator was constructed with another expansion order / ncrit than its parameter "
                 "object holds")
+    if what in ("weak", "strong") and any(x[0] == "derived" and h[si][1] in x[2:] for x in h[:si]):
+        return ("C18:%s:%s-form-of-an-operand-changed-by-assembling-a-derived-operator[%s-precision]"
+                % (kind, what, "single" if spec.get("single") else "double"),
+                "after -A, 3*A, A*3, A-B, A+B or A*B was assembled the cached %s form of the operand is no longer the value "
+                "a fresh process (and the first observation) gives: an in-place update of the cached array" % what)
     if spec.get("single"):
         return ("C18:%s:single-precision-result-differs-from-double-beyond-single-accuracy" % kind,
                 "precision='single' does not agree with the double-precision result of the same parameters")
@@ -434,7 +459,9 @@ META = {
                   "computes; binding times; for ANY tables whose FMM cache keys contain all build inputs the caches are transparent "
                   "(all histories). Refuted on the pinned tree, with witness histories: explicit parameters for FMM "
                   "operators, sufficiency of both FMM cache keys, the mass-matrix memo; clearing the cache restores "
-                  "independence.",
+                  "independence. Assembling a derived operator (-A, k*A, A+B, A-B, A*B) never changes "
+                  "the cached value of an operand, for all histories, given that the regenerated list of in-place updates is "
+                  "empty (theorem over the regenerated table); refuted for tables with an in-place scaling.",
     "level_note": "Trusted: Coq kernel; translators/cachekeys.py and its list of assembler functions; the harness and the "
                   "exafmm stand-in. Numerical content abstracted to descriptors; single precision not modelled.",
     "design_ref": "DESIGN.md §7 C18",
